@@ -3,7 +3,7 @@
    source-derived rule. *)
 From Coq Require Import ZArith List Bool Lia.
 From CPL Require Import Model.Base Model.Rules Model.Engine Model.Evolve2D Model.Sandpile Proofs.Evolve2DProofs Proofs.SandpileProofs.
-From CPL Require Import gen.GenFuns GenProps.GenFunsEquivC14 GenProps.GenFunsExt.
+From CPL Require Import gen.GenFuns_C14 GenProps.GenFunsEquivC14 GenProps.GenFunsExt.
 Import ListNotations.
 Local Open Scope Z_scope.
 
